@@ -26,6 +26,10 @@ def violators (e : Env) (s : State) : List (String × String × List String) :=
     ("C14", "workerAgrees", (providersOf s).filterMap (fun p => if workerAgrees s p then none else some s!"sp{p}")),
     ("C14", "shardHolderPledged", s.shards.filterMap (fun sh => if sh.status ≠ ShardCompleted || (s.getPledge sh.sp).isSome then none else some s!"shard{sh.id}")),
     ("C14", "poolAgrees", if poolAgrees s then [] else ["pool"]),
+    -- C08: rewards are shared pro rata only if the divisor of the accumulator is the capacity the providers hold
+    ("C08", "rewardDivisorAgrees", match s.pool with
+      | some pool => if pool.totalStorage = sumInt (s.pledges.map (·.totalStorage)) then [] else ["pool.totalStorage"]
+      | none => []),
     ("C07", "usedBounds", s.pledges.filterMap (fun p => if 0 ≤ p.usedStorage && p.usedStorage ≤ p.totalStorage then none else some s!"sp{p.creator}")),
     ("C16", "idsFresh", if idsFresh s then [] else ["ids"]),
     ("C16", "oneInFlight", s.metas.filterMap (fun m =>
@@ -263,7 +267,9 @@ def checkStep (e : Env) (pre : Sys) (op : Op) (res : Res) (post : Sys) (origin :
          | none => true
          | some m => if m.commits.isEmpty then (post.st.getMeta o.dataId).isNone && (post.st.getModel (metaKey m)).isNone
                      else (match post.st.getMeta o.dataId with
-                           | some m' => m'.status = MetaComplete && m'.commits = m.commits && some m'.commit = (m.commits.getLast?.map commitFromVersion)
+                           | some m' => m'.status = MetaComplete && m'.commits = m.commits && some m'.commit = (m.commits.getLast?.map commitFromVersion) &&
+                                        -- … and points at the order it pointed at before the update: the last one the model lists
+                                        (m.orders.getLast?.isNone || some m'.orderId = m.orders.getLast?)
                            | none => false)
        if refunded && shardsGone && metaOk then none
        else some ("C05", s!"clause=cleanRefund cls=none rec=order{o.id}:refund={refunded},shards={shardsGone},meta={metaOk}"))
@@ -357,6 +363,22 @@ def checkStep (e : Env) (pre : Sys) (op : Op) (res : Res) (post : Sys) (origin :
       | some sh' => if sh.status = ShardCompleted && sh'.status = ShardCompleted && sh'.pledge < sh.pledge
                     then some ("C07", s!"clause=shardCollateralKept cls=none rec=shard{sh.id}:{sh.pledge}->{sh'.pledge}") else none
       | none => none)
+   else []) ++
+  -- C07: when stored shards of a provider end (termination, cancellation, expiry) the provider gets their collateral
+  -- back, less exactly the collateral debt that is struck off its record in the same step
+  (let releasing := match op with
+     | .terminate .. => true
+     | .cancel .. => true
+     | .end_ => true
+     | _ => false
+   if res = .ok && releasing then
+     let gone := pre.st.shards.filter (fun sh => sh.status = ShardCompleted && (post.st.getShard sh.id).isNone)
+     (gone.map (·.sp)).eraseDups.filterMap (fun sp =>
+       let due := sumInt ((gone.filter (·.sp = sp)).map (·.pledge))
+       let got := post.st.bal sp - pre.st.bal sp
+       let struck := (pre.st.getDebt sp).getD 0 - (post.st.getDebt sp).getD 0
+       if got + struck = due then none
+       else some ("C07", s!"clause=releaseReturnsCollateral cls=none rec=sp{sp}:due={due},paid={got},debt-struck={struck}"))
    else []) ++
   -- C08: coins are created only by the begin blocker, at most the configured reward of the current
   -- halving age, and the cumulative reward counter grows by exactly what was minted
